@@ -13,7 +13,7 @@ import (
 )
 
 func init() {
-	register("C17", "Static rules on cmd/guardiand.handleReobservationRequests and common.PostObservationRequest SSA: (route) the only channel sent to is chainObsvReqC[<chain of the request>] obtained by a comma-ok map lookup whose key is the request's chain id converted without loss (a narrowing conversion needs a dominating range check), and on a miss nothing is sent or remembered; (nonblocking) every send in the dispatcher and in PostObservationRequest is a select case with a default, and the dispatcher loop contains no blocking operation other than its top-level select; (remember-on-success) the single cache write has the must-hold fact that the send case was taken, and the send has the must-hold fact that the request was not in the cache; the cache key is (chain, hex(tx hash)) of the request; (window) purge deletes only entries older than 11 min and the ticker period is 7 min (constants read from source).", c17)
+	register("C17", "Static rules on cmd/guardiand.handleReobservationRequests and common.PostObservationRequest SSA: (route) the only channel sent to is chainObsvReqC[<chain of the request>] obtained by a comma-ok map lookup whose key is the request's chain id converted without loss (a narrowing conversion needs a dominating range check), and on a miss nothing is sent or remembered; (nonblocking) every send in the dispatcher and in PostObservationRequest is a select case with a default, and the dispatcher loop contains no blocking operation other than its top-level select; (remember-on-success) the single cache write has the must-hold fact that the send case was taken, and the send has the must-hold fact that the request was not in the cache; the cache key is (chain, hex(tx hash)) of the request; (window) purge deletes only entries older than 11 min and the ticker period is 7 min (constants read from source). (single-table) exactly one suppression map is made, outside the loop.", c17)
 }
 
 func c17(c *Ctx) {
